@@ -214,6 +214,12 @@ func (s *Synchronizer) OnRemoteTimeout(timeout hotstuff.TimeoutMsg) {
 		s.logger.Infof("View timeout signature could not be verified: %v", err)
 		return
 	}
+	// The timeout collector keeps one timeout per sender, while certificates are combined per signer;
+	// a timeout must therefore be signed by its sender only.
+	if !signedOnlyBy(timeout.ViewSignature, timeout.ID) {
+		s.logger.Infof("View timeout signature is not signed by the sender %d only", timeout.ID)
+		return
+	}
 	s.logger.Debug("OnRemoteTimeout (advancing view): ", timeout)
 	s.advanceView(timeout.SyncInfo)
 
@@ -234,6 +240,15 @@ func (s *Synchronizer) OnRemoteTimeout(timeout hotstuff.TimeoutMsg) {
 
 	s.logger.Debugf("OnRemoteTimeout (second advance)")
 	s.advanceView(si)
+}
+
+// signedOnlyBy returns true if id is the one and only participant of the signature.
+func signedOnlyBy(sig hotstuff.QuorumSignature, id hotstuff.ID) bool {
+	if sig == nil {
+		return false
+	}
+	participants := sig.Participants()
+	return participants.Len() == 1 && participants.Contains(id)
 }
 
 // OnNewView handles an incoming consensus.NewViewMsg
